@@ -5,6 +5,7 @@ behaviour-preserving macro expansion, so that a refactored spelling yields the s
     helper's return expression with the arguments substituted;
   * a call through a local alias of a bound method (`get = self.workflow.get_task_list` ... `get(ID=i)`) is replaced by the call
     of the method itself;
+  * `f"{x}"` is written `str(x)`;
   * `list(map(F, X))` / `list(filter(lambda e: C, X))` are written as the comprehension they abbreviate;
   * `for name in ("a", "b"): ... getattr(o, name) ... setattr(o, name, v)` is unrolled into the statements for `o.a` and `o.b`
     (also when the literal table is named first, and when its rows are tuples unpacked by the loop target).
@@ -50,9 +51,10 @@ def original(n):
     return _ORIG.get(getattr(n, "_oid", None))
 
 
-def normalise_function(node, methods=None):
+def normalise_function(node, methods=None, module=None):
     """`methods`: name -> FunctionDef of the other methods of the same class; a call `self.<m>(...)` of a one-expression method
-    is expanded like a nested helper."""
+    is expanded like a nested helper.  `module`: the ast.Module the function lives in; its one-expression functions and literal
+    tables are expanded like local ones."""
     for n in ast.walk(node):
         if not hasattr(n, "_oid"):
             _NEXT[0] += 1
@@ -66,6 +68,17 @@ def normalise_function(node, methods=None):
         elif isinstance(n, ast.arg):
             stores[n.arg] = stores.get(n.arg, 0) + 2
     helpers, aliases, tables = {}, {}, {}
+    mod_funcs = {}
+    if module is not None:
+        for n in module.body:
+            if isinstance(n, ast.FunctionDef) and stores.get(n.name, 0) == 0:
+                r = _single_return(n)
+                if r is not None and not n.args.vararg and not n.args.kwarg and not (_bound_names(r) & {a.arg for a in n.args.args}):
+                    mod_funcs[n.name] = (n.args, copy.deepcopy(r))
+            elif isinstance(n, ast.Assign) and len(n.targets) == 1 and isinstance(n.targets[0], ast.Name) and isinstance(n.value, (ast.Tuple, ast.List)) \
+                    and stores.get(n.targets[0].id, 0) == 0:
+                tables[n.targets[0].id] = copy.deepcopy(n.value)
+        helpers.update(mod_funcs)
     for n in ast.walk(fn):
         if isinstance(n, ast.FunctionDef) and n is not fn:
             r = _single_return(n)
@@ -76,6 +89,8 @@ def normalise_function(node, methods=None):
                 helpers[n.targets[0].id] = (n.value.args, n.value.body)
             elif isinstance(n.value, ast.Attribute):
                 aliases[n.targets[0].id] = n.value
+            elif isinstance(n.value, ast.Name) and n.value.id in mod_funcs:
+                helpers[n.targets[0].id] = mod_funcs[n.value.id]   # local alias of a module-level one-expression function
             elif isinstance(n.value, (ast.Tuple, ast.List)):
                 tables[n.targets[0].id] = n.value   # a literal table named first
 
@@ -157,6 +172,55 @@ def normalise_function(node, methods=None):
                             self.depth -= 1
             return c
 
+        def visit_JoinedStr(self, js):
+            # f"{x}" == str(x)   (one replacement field, no conversion, no format spec)
+            js = self.generic_visit(js)
+            if len(js.values) == 1 and isinstance(js.values[0], ast.FormattedValue) and js.values[0].conversion == -1 and js.values[0].format_spec is None:
+                new = ast.Call(func=ast.Name(id="str", ctx=ast.Load()), args=[js.values[0].value], keywords=[])
+                ast.copy_location(new, js)
+                ast.copy_location(new.func, js)
+                return new
+            return js
+
+        def visit_DictComp(self, dc):
+            # {k: f(k) for k in ("a", "b")} over a literal table == the dict literal with one entry per row (rows may be tuples that
+            # the target unpacks)
+            g = dc.generators[0] if len(dc.generators) == 1 else None
+            names = None
+            if g is not None and not g.ifs:
+                names = [g.target.id] if isinstance(g.target, ast.Name) else \
+                    [t.id for t in g.target.elts] if isinstance(g.target, ast.Tuple) and all(isinstance(t, ast.Name) for t in g.target.elts) else None
+            if names:
+                it = g.iter
+                if isinstance(it, ast.Name) and it.id in tables:
+                    it = tables[it.id]
+
+                def simple(x):
+                    if isinstance(x, ast.UnaryOp) and isinstance(x.op, (ast.USub, ast.UAdd)):
+                        x = x.operand   # a negative literal
+                    while isinstance(x, ast.Attribute):
+                        x = x.value
+                    return isinstance(x, (ast.Constant, ast.Name))
+                rows = None
+                if isinstance(it, (ast.Tuple, ast.List)) and it.elts:
+                    if isinstance(g.target, ast.Name):
+                        rows = [[x] for x in it.elts]
+                    elif all(isinstance(x, (ast.Tuple, ast.List)) and len(x.elts) == len(names) for x in it.elts):
+                        rows = [list(x.elts) for x in it.elts]
+                if rows and all(simple(x) for r in rows for x in r):
+                    keys, vals = [], []
+                    for r in rows:
+                        m = dict(zip(names, r))
+                        keys.append(self.visit(_Attr().visit(_Subst(m).visit(copy.deepcopy(dc.key)))))
+                        vals.append(self.visit(_Attr().visit(_Subst(m).visit(copy.deepcopy(dc.value)))))
+                    if all(isinstance(k, ast.Constant) for k in keys):
+                        new = ast.copy_location(ast.Dict(keys=keys, values=vals), dc)
+                        for x in ast.walk(new):
+                            if not hasattr(x, "lineno"):
+                                ast.copy_location(x, dc)
+                        return new
+            return self.generic_visit(dc)
+
         def visit_For(self, lp):
             it = lp.iter
             if isinstance(it, ast.Name) and it.id in tables:
@@ -165,6 +229,8 @@ def normalise_function(node, methods=None):
                 [t.id for t in lp.target.elts] if isinstance(lp.target, ast.Tuple) and all(isinstance(t, ast.Name) for t in lp.target.elts) else None
 
             def simple(x):
+                if isinstance(x, ast.UnaryOp) and isinstance(x.op, (ast.USub, ast.UAdd)):
+                    x = x.operand   # a negative literal
                 while isinstance(x, ast.Attribute):
                     x = x.value
                 return isinstance(x, (ast.Constant, ast.Name))
@@ -205,6 +271,27 @@ def normalise_function(node, methods=None):
                 return ast.copy_location(ast.Assign(targets=[tgt], value=c.args[2], type_comment=None), e)
             return e
 
+    # `x.a if (x := self.p) is not None else None`: a walrus that only names a plain attribute chain inside one statement
+    loads = {}
+    for n in ast.walk(fn):
+        if isinstance(n, ast.Name) and isinstance(n.ctx, ast.Load):
+            loads[n.id] = loads.get(n.id, 0) + 1
+    for stmt in [n for n in ast.walk(fn) if isinstance(n, ast.stmt) and not isinstance(n, (ast.FunctionDef, ast.For, ast.While, ast.If, ast.With, ast.Try))]:
+        for ne in [n for n in ast.walk(stmt) if isinstance(n, ast.NamedExpr) and isinstance(n.target, ast.Name)]:
+            v = ne.value
+            base = v
+            while isinstance(base, ast.Attribute):
+                base = base.value
+            name = ne.target.id
+            inside = sum(1 for n in ast.walk(stmt) if isinstance(n, ast.Name) and isinstance(n.ctx, ast.Load) and n.id == name)
+            if isinstance(base, ast.Name) and stores.get(name) == 1 and inside == loads.get(name, 0):
+                class W(ast.NodeTransformer):
+                    def visit_NamedExpr(self, n):
+                        return copy.deepcopy(v) if n is ne else self.generic_visit(n)
+
+                    def visit_Name(self, n):
+                        return ast.copy_location(copy.deepcopy(v), n) if isinstance(n.ctx, ast.Load) and n.id == name else n
+                W().visit(stmt)
     fn = Expand().visit(fn)
     # copy propagation inside a block:  x = <expr> ; <target> = x   ->   <target> = <expr>
     for blk in ast.walk(fn):
